@@ -446,6 +446,31 @@ func runAll(c *run.Ctx) {
 			}
 		}
 	}
+	// concurrent edges: three or more segments of the two operands through one non-lattice point, whose
+	// position every pair of them computes with its own rounding
+	for i := 0; i < c.N(2500, 40000); i++ {
+		c.Case("concurrent", i, func(k *run.K) {
+			domain := gen.DSmall
+			cfg := gen.NewCfg(k.Rng, domain)
+			cfg.Side = k.Rng.Range(6, 14)
+			if k.Rng.Chance(3, 4) {
+				// the lattice box straddles the origin: a crossing computed as a + (b-a)*t then has a finer ulp
+				// than the product, so that the rounding of t survives in the result (and differs between pairs)
+				cfg.OffX, cfg.OffY = -k.Rng.Range(0, cfg.Side), -k.Rng.Range(0, cfg.Side)
+			}
+			g := &gen.G{R: k.Rng, Cfg: cfg}
+			a, b, ok := g.ConcurrentPair()
+			if !ok {
+				k.Skip("member-in")
+				return
+			}
+			k.In("domain", domain)
+			k.In("a", shared.WKT(a))
+			k.In("b", shared.WKT(b))
+			Pair(k, domain, a, b, true)
+			Pair(k, domain, b, a, false)
+		})
+	}
 	// stress stream: operands with up to three times as many vertices (large lattice and general position)
 	for i := 0; i < c.N(300, 6000); i++ {
 		c.Case("big", i, func(k *run.K) {
